@@ -441,6 +441,35 @@ func (r *c03run) run() error {
 			}
 		}
 	}
+	// (10) ESC typed twice, then quiet: whatever the two bytes become, the
+	// decoder is back in its initial state once the timeout has passed - a
+	// key or a rune typed later carries no Alt and no extra event.
+	{
+		for rep := 0; rep < 2; rep++ {
+			held, first := r.decode("\x1b\x1b", rep)
+			_ = held
+			for _, e := range first {
+				if e != keyDesc(tcell.KeyEsc, 0) && e != keyDesc(tcell.KeyEsc, tcell.ModAlt) {
+					r.fail("C03/esc-timeout", "escesc", "\x1b\x1b", rep, "ESC ESC (split@%d) and the timeout decoded to %v", rep, first)
+				}
+			}
+			if len(first) == 0 || len(first) > 2 {
+				r.fail("C03/esc-timeout", "escesc", "\x1b\x1b", rep, "ESC ESC (split@%d) and the timeout decoded to %v", rep, first)
+			}
+			_, all := r.decode("x", 0)
+			if len(all) != 1 || all[0] != runeDesc('x', 0) {
+				r.fail("C03/alt", "escesc-then-rune", "\x1b\x1b", rep, "ESC ESC, the timeout (events %v), then 'x' typed later decoded to %v", first, all)
+			}
+			if len(seqs) > 0 {
+				r.decode("\x1b\x1b", rep)
+				ks := seqs[r.rng.Intn(len(seqs))]
+				_, all = r.decode(ks.Seq, 0)
+				if len(all) != 1 || !ks.accepts(all[0]) {
+					r.fail("C03/alt", "escesc-then-key", ks.Seq, rep, "ESC ESC, the timeout, then key %s typed later decoded to %v", ks.String(), all)
+				}
+			}
+		}
+	}
 	if w.stall {
 		r.fail("C03/key", "stall", "", 0, "input pipeline did not reach quiescence within the step budget")
 	}
@@ -449,6 +478,66 @@ func (r *c03run) run() error {
 	})
 	hx.St.Enumerated["C03 key sequences decoded"] += r.cases
 	return err
+}
+
+func (r *c03run) runPolled() error {
+	// (11) a tty that is polled (Read returns no bytes every 10 ms while
+	// idle, as a serial line with VMIN=0 does): reads that bring nothing are
+	// not input - the escape timeout still runs out.
+	{
+		pcfg := hx.Config{Term: r.term, W: 80, H: 24, Go123: r.go123, GapScale: 1, MapMode: r.mode, MapSeed: r.seed, AltScreen: true, Polling: true}
+		pw, perr := newIW(pcfg, hx.RandomChooser(hx.NewRng(r.rseed^0x9011), 3000))
+		if perr != nil {
+			return perr
+		}
+		seqs, _ := keySeqs(pw.Ti)
+		pw.feedHold([]byte("\x1b"))
+		held := append([]string(nil), pw.evs...)
+		pw.settle()
+		all := pw.take()
+		r.cases++
+		if len(held) != 0 {
+			r.fail("C03/esc-timeout", "polled-esc", "\x1b", 0, "polled tty: lone ESC produced %v before the timeout", held)
+		} else if len(all) != 1 || all[0] != keyDesc(tcell.KeyEsc, 0) {
+			r.fail("C03/esc-timeout", "polled-esc", "\x1b", 0, "polled tty (empty reads every 10 ms): lone ESC decoded to %v half a second later", all)
+		}
+		for i := 0; i < 3 && len(seqs) > 0; i++ {
+			ks := seqs[r.rng.Intn(len(seqs))]
+			cut := 0
+			if len(ks.Seq) > 1 {
+				cut = 1 + r.rng.Intn(len(ks.Seq)-1)
+				pw.feedHold([]byte(ks.Seq[:cut]))
+			}
+			pw.feedHold([]byte(ks.Seq[cut:]))
+			pw.settle()
+			all := pw.take()
+			r.cases++
+			if len(all) != 1 || !ks.accepts(all[0]) {
+				r.fail("C03/key", "polled-key", ks.Seq, cut, "polled tty: key %s split@%d decoded to %v", ks.String(), cut, all)
+			}
+			// ESC, a pause longer than the timeout, then the key: Esc, then the key without Alt
+			pw.feedHold([]byte("\x1b"))
+			pw.settle()
+			pw.feedHold([]byte(ks.Seq))
+			pw.settle()
+			all = pw.take()
+			r.cases++
+			if len(all) != 2 || all[0] != keyDesc(tcell.KeyEsc, 0) || !ks.accepts(all[1]) {
+				r.fail("C03/esc-timeout", "polled-esc-pause-key", ks.Seq, 0, "polled tty: ESC, half a second, then key %s decoded to %v", ks.String(), all)
+			}
+		}
+		if pw.stall {
+			r.fail("C03/key", "stall", "", 1, "polled tty: input pipeline exhausted the step budget")
+		}
+		pn, cerr := pw.finish()
+		for _, p := range pn {
+			r.fail("C03/key", "panic", "", 1, "polled tty: panic while decoding: %s", p)
+		}
+		if cerr != nil {
+			return cerr
+		}
+	}
+	return nil
 }
 
 func TestC03(t *testing.T) {
@@ -500,6 +589,12 @@ func TestC03(t *testing.T) {
 			if err := r.run(); err != nil {
 				hx.Disarm()
 				t.Fatalf("HARNESS: %s: %v", name, err)
+			}
+			if r.mode == 4 || r.mode == 2 {
+				if err := r.runPolled(); err != nil {
+					hx.Disarm()
+					t.Fatalf("HARNESS: %s (polled tty): %v", name, err)
+				}
 			}
 			hx.Disarm()
 			fails = append(fails, r.fails...)
